@@ -87,6 +87,18 @@ func coResume(L *LState, wrapped bool) int {
 		}
 		return L.GetTop() - 1
 	}
+	if L.G.nresumes >= MaxNestedResumes {
+		msg := "C stack overflow"
+		if wrapped {
+			L.RaiseError(msg)
+			return 0
+		}
+		L.Push(LFalse)
+		L.Push(LString(msg))
+		return 2
+	}
+	L.G.nresumes++
+	defer func() { L.G.nresumes-- }()
 	th.wrapped = wrapped
 	th.Parent = L
 	L.G.CurrentThread = th
